@@ -303,6 +303,10 @@ def parse_generic_csv(filepath, format_spec, rules, source_name='CSV',
             if not location:
                 location = extract_location(description)
 
+            # Field transforms rewrite the captures in place: keep the values as read, for
+            # anything that has to apply the transforms to this row again (tally discover)
+            raw_captures = dict(captures) if (captures and transforms) else None
+
             # Normalize merchant
             merchant, category, subcategory, match_info = normalize_merchant(
                 description, rules, amount=amount, txn_date=date.date(),
@@ -329,6 +333,8 @@ def parse_generic_csv(filepath, format_spec, rules, source_name='CSV',
                 'excluded': None,  # No auto-exclusion; use rules to categorize
                 'field': captures if captures else None,  # Custom CSV captures for rule expressions
             }
+            if raw_captures is not None:
+                txn['_raw_field'] = raw_captures
             # Add _raw_* keys from transforms (e.g., _raw_description)
             if match_info and match_info.get('raw_values'):
                 for key, value in match_info['raw_values'].items():
